@@ -68,6 +68,11 @@ class GotranCCodePrinter(C99CodePrinter):
         # numbers, otherwise C would perform integer division (1/4 == 0).
         return super()._print_Mul(_float_denominators(expr))
 
+    def _print_Abs(self, expr):
+        # All quantities are doubles. Sympy would use the integer function abs
+        # (which is not declared by math.h) for integer valued arguments such as floor(x)
+        return f"fabs({self._print(expr.args[0])})"
+
     def _print_Mod(self, expr):
         # fmod takes the sign of the dividend, while Mod (as in sympy and python)
         # takes the sign of the divisor
